@@ -245,7 +245,7 @@ def some_is(v, name):
 
 def api_returns(ctx, prog):
     import c12
-    ex = io_executor(ctx, prog, extra=cell_summaries() + [(r'^BTreeMap::<String, AMQPValue>::new$', lambda e, s, f, a: [(s, Agg({}, 'FieldTable', 'EMPTY-TABLE'))])])
+    ex = io_executor(ctx, prog, extra=cell_summaries() + [(r'^BTreeMap::<String, AMQPValue>::new$|^<BTreeMap<String, AMQPValue> as Default>::default$', lambda e, s, f, a: [(s, Agg({}, 'FieldTable', 'EMPTY-TABLE'))])])
     ctx.bound('api_returns', f"every synchronous / nowait operation of the C12 operation table ({len(c12.OPS)} operations), arbitrary symbolic arguments, arbitrary symbolic message pre-loaded on the channel's reply queue")
     MVC = prog.types.variants('ChannelMessage')
     CV = prog.types.variants('amq_protocol::protocol::AMQPClass')
